@@ -121,6 +121,7 @@ type world struct {
 	pool    *core.TxPool
 	cfg     core.TxPoolConfig
 	nblocks int
+	noHeads bool
 	cfgName string
 	history []string
 	mcmds   []string // the exact modelrun command lines of this history (replayable: printf ... | bin/modelrun_pool)
@@ -727,6 +728,7 @@ type poolCfg struct {
 	as, gs, aq, gq, bump   uint64
 	nolocals               bool
 	nsenders, nops         int
+	noHeads                bool                   // after a warm-up no head events: nothing recomputes the virtual nonces
 	st                     []acct                 // optional fixed initial state (directed histories)
 	gp                     int64                  // optional fixed price limit
 	script                 func(w *world) []sop   // optional directed history instead of generated operations
@@ -742,6 +744,8 @@ type sop struct {
 	nb           *blockInfo // new head (the old one is the current head)
 	reinjectWant []*mtx
 	touched      []int
+	next         bool // submission at State().GetNonce(from), resolved when the operation runs
+	from         int
 }
 
 func (w *world) curToken(b *blockInfo) string {
@@ -1004,12 +1008,17 @@ func (w *world) runHistory(pc poolCfg) {
 		if scripted != nil {
 			plan = scripted[opn]
 		} else {
+			w.noHeads = pc.noHeads && opn > pc.nops/4
 			plan = w.planRandom(before)
 		}
 		for _, a := range plan.touched {
 			extraRel[a] = true
 		}
 		class = plan.class
+		if plan.kind == "add" && plan.next {
+			n := w.pool.State().GetNonce(w.addrs[plan.from])
+			plan.t = w.mkTx(plan.from, n, w.uniquePrice(plan.price), 21000, big.NewInt(100), nil, false)
+		}
 		switch plan.kind {
 		case "add":
 			t, local := plan.t, plan.local
@@ -1030,6 +1039,22 @@ func (w *world) runHistory(pc poolCfg) {
 			})
 			want = errClass(err)
 			c.Count("result/" + want)
+			if err == nil {
+				pend, _ := w.pool.Pending()
+				cut, sizes := 0, map[int]bool{}
+				for a, l := range before.pending {
+					if a != t.from && len(pend[w.addrs[a]]) < len(l) {
+						cut++
+						sizes[len(l)] = true
+					}
+				}
+				if cut > 0 {
+					c.Count("coverage/pending-limit-cut-other-sender")
+				}
+				if cut > 1 || (cut == 1 && len(pend[w.addrs[t.from]]) > int(pc.as)) {
+					c.Count("coverage/pending-limit-several-offenders")
+				}
+			}
 			// direct oracle for replacement_needs_bump (no eviction pressure)
 			if err == nil && uint64(len(before.all)) < pc.gs+pc.gq {
 				for _, o := range append(append([]*mtx{}, before.pending[t.from]...), before.queued[t.from]...) {
@@ -1138,7 +1163,25 @@ func (w *world) runHistory(pc poolCfg) {
 // planRandom draws the next operation of a generated history.
 func (w *world) planRandom(before view) sop {
 	r := w.r
-	switch k := r.Intn(100); {
+	k := r.Intn(100)
+	if w.noHeads && k >= 69 { // head-free phase: more submissions and threshold changes instead
+		k = r.Intn(69)
+	}
+	// fill the hole in front of a sender's queue: one submission then promotes several transactions at once
+	if k < 62 && r.Chance(22) {
+		var cands []int
+		for a, q := range before.queued {
+			if len(q) >= 2 && !before.locals[a] {
+				cands = append(cands, a)
+			}
+		}
+		sort.Ints(cands)
+		if len(cands) > 0 {
+			a := cands[r.Intn(len(cands))]
+			return sop{kind: "add", class: "add-remote/fill-gap", next: true, from: a, price: int64(2000 + r.Intn(3000))}
+		}
+	}
+	switch {
 	case k < 62: // submission
 		t, cl := w.genTx(before)
 		if r.Chance(15) {
@@ -1447,6 +1490,36 @@ func directedCaps(kind string) func(w *world) []sop {
 	}
 }
 
+// directedSlots: both pending-limit loops of promoteExecutables with offenders of different sizes, then a head-free
+// continuation (nothing recomputes the virtual nonces): price threshold up and down, submissions at State().GetNonce.
+//   config AccountSlots=1 GlobalSlots=4.  A: pending [0], queued [2,3].  B: pending [0,1] (variant "min": [0,1,2]).
+//   A submits nonce 1: A has 4 pending, the total overflows; offenders A and B of different sizes are equalised
+//   (variant "min": then both reduced towards the minimum allowance).  The senders cut back must get their virtual
+//   nonce lowered to the dropped transaction.
+func directedSlots(variant string) func(w *world) []sop {
+	return func(w *world) []sop {
+		mk := func(from int, nonce uint64, price int64) *mtx {
+			return w.mkTx(from, nonce, w.uniquePrice(price), 21000, big.NewInt(100), nil, false)
+		}
+		ops := []sop{
+			{kind: "add", class: "directed/slots-" + variant, t: mk(0, 0, 3000)}, {kind: "add", class: "directed/slots-" + variant, t: mk(0, 2, 3100)},
+			{kind: "add", class: "directed/slots-" + variant, t: mk(0, 3, 3200)},
+			{kind: "add", class: "directed/slots-" + variant, t: mk(1, 0, 10)}, {kind: "add", class: "directed/slots-" + variant, t: mk(1, 1, 11)},
+		}
+		if variant == "min" {
+			ops = append(ops, sop{kind: "add", class: "directed/slots-min", t: mk(1, 2, 12)})
+		}
+		ops = append(ops,
+			sop{kind: "add", class: "directed/slots-" + variant + "-overflow", t: mk(0, 1, 3300)},
+			sop{kind: "gasprice", class: "directed/slots-" + variant + "-evict-cheap", price: 500},
+			sop{kind: "gasprice", class: "directed/slots-" + variant, price: 1},
+			sop{kind: "add", class: "directed/slots-" + variant + "-next", next: true, from: 0, price: 3400},
+			sop{kind: "add", class: "directed/slots-" + variant + "-next", next: true, from: 1, price: 3500},
+			sop{kind: "add", class: "directed/slots-" + variant + "-next", next: true, from: 0, price: 3600})
+		return ops
+	}
+}
+
 // ---------------------------------------------------------------- concurrent variant (direct oracle only)
 
 func (w *world) runConcurrent(pc poolCfg) {
@@ -1566,10 +1639,16 @@ func main() {
 		w.runHistory(poolCfg{name: "default", as: 16, gs: 4096, aq: 64, gq: 1024, bump: 10, nsenders: 2, gp: 1,
 			st: []acct{{0, big.NewInt(100000000)}, {0, big.NewInt(100000000)}}, script: directedCaps(k)})
 	}
+	for _, v := range []string{"equalize", "min"} {
+		w.runHistory(poolCfg{name: "slots", as: 1, gs: 4, aq: 3, gq: 6, bump: 10, nsenders: 3, gp: 1,
+			st: []acct{{0, big.NewInt(1000000000)}, {0, big.NewInt(1000000000)}, {0, big.NewInt(1000000000)}}, script: directedSlots(v)})
+	}
 	nh := c.Scale(80, 6000)
 	for i := 0; i < nh; i++ {
 		var pc poolCfg
-		switch i % 4 {
+		switch i % 5 {
+		case 4: // slot pressure: any sender with two pending transactions is an offender
+			pc = poolCfg{name: "slots", as: 1, gs: 4 + uint64(c.Rng.Intn(3)), aq: 3, gq: 6, bump: 10, nsenders: 3 + c.Rng.Intn(2), nops: 60 + c.Rng.Intn(120)}
 		case 0, 1:
 			pc = poolCfg{name: "tiny", as: 2, gs: 4, aq: 2, gq: 4, bump: 10, nsenders: 4 + c.Rng.Intn(2), nops: 40 + c.Rng.Intn(120)}
 		case 2:
@@ -1578,6 +1657,7 @@ func main() {
 			pc = poolCfg{name: "default", as: 16, gs: 4096, aq: 64, gq: 1024, bump: 10, nsenders: 4 + c.Rng.Intn(5), nops: 60 + c.Rng.Intn(240)}
 		}
 		pc.nolocals = c.Rng.Chance(10)
+		pc.noHeads = pc.name != "default" && c.Rng.Chance(50)
 		w.runHistory(pc)
 	}
 	for i := 0; i < c.Scale(6, 100); i++ {
